@@ -271,6 +271,10 @@ pub struct Interp<'a> {
     pub feed: VecDeque<String>,
     /// configuration at shutdown (reported to the host)
     pub final_cfg: Vec<String>,
+    /// variant of the semantics of an erroring <if>/<elseif> condition (see exec)
+    pub if_error_aborts: bool,
+    /// a value left the range in which all data models agree
+    pub out_of_domain: std::cell::Cell<bool>,
 }
 
 #[derive(Clone, Copy, PartialEq, Debug)]
@@ -299,6 +303,8 @@ impl<'a> Interp<'a> {
             first_entry_done: BTreeSet::new(),
             feed: VecDeque::new(),
             final_cfg: Vec::new(),
+            if_error_aborts: false,
+            out_of_domain: std::cell::Cell::new(false),
         }
     }
 
@@ -348,7 +354,15 @@ impl<'a> Interp<'a> {
                 _ => return Err(()),
             },
             X::Add(a, b) => match (self.eval(a)?, self.eval(b)?) {
-                (V::Int(p), V::Int(q)) => V::Int(p + q),
+                (V::Int(p), V::Int(q)) => {
+                    // beyond 2^31 the data models differ (Integer saturation vs. IEEE doubles): such
+                    // cases are outside the common language; the run is abandoned (counted as discard)
+                    let r = p.saturating_add(q);
+                    if r.abs() > (1i64 << 31) {
+                        self.out_of_domain.set(true);
+                    }
+                    V::Int(r)
+                }
                 (V::Str(p), V::Str(q)) => V::Str(format!("{}{}", p, q)),
                 _ => return Err(()),
             },
@@ -464,8 +478,12 @@ impl<'a> Interp<'a> {
                             }
                         }
                         Err(()) => {
+                            // W3C 5.9.1: the condition counts as false and error.execution is raised.
+                            // Whether the rest of the block is abandoned as well is accepted either way.
                             self.error_execution();
-                            return false;
+                            if self.if_error_aborts {
+                                return false;
+                            }
                         }
                     }
                 }
@@ -499,8 +517,28 @@ impl<'a> Interp<'a> {
                     false
                 }
             },
+            C::Send(s) => {
+                // modelled subset: target absent (own external queue) or '#_internal', no delay;
+                // an argument that fails to evaluate discards the message and raises error.execution
+                let failing = |o: &Option<String>| o.as_ref().map(|x| crate::contentgen::is_bad(x)).unwrap_or(false);
+                if failing(&s.eventexpr) || failing(&s.targetexpr) || failing(&s.delayexpr) || failing(&s.typeexpr) || s.namelist.iter().any(|n| !self.store.contains_key(n)) {
+                    self.error_execution();
+                    return false;
+                }
+                let name = match (&s.event, &s.eventexpr) {
+                    (Some(e), _) => e.clone(),
+                    (None, Some(x)) => x.trim_matches('\'').to_string(),
+                    _ => String::new(),
+                };
+                match s.target.as_deref() {
+                    Some("#_internal") => self.internal.push_back(QEvent { name }),
+                    None => self.external.push_back(QEvent { name }),
+                    _ => {}
+                }
+                true
+            }
             // only used in documents that are parsed / serialised but never executed by the model
-            C::Send(_) | C::Cancel { .. } | C::AssignText { .. } => true,
+            C::Cancel { .. } | C::AssignText { .. } => true,
         }
     }
 
@@ -946,6 +984,6 @@ impl<'a> Interp<'a> {
         }
         self.stats.shutdown_with_queued = self.external.len();
         self.exit_interpreter();
-        true
+        !self.out_of_domain.get()
     }
 }
